@@ -219,6 +219,7 @@ func Main() {
 			json.Unmarshal([]byte(os.Args[4]), &j.Replay.Choices)
 		}
 		os.Setenv("VERIF_DEBUG", "1")
+		setWorkerPath()
 		if tmp, err := os.MkdirTemp("/dev/shm", "vrf-one-"); err == nil {
 			os.Setenv("TMPDIR", tmp)
 			defer os.RemoveAll(tmp)
@@ -235,6 +236,16 @@ func Main() {
 		fmt.Fprintln(os.Stderr, "unknown command", os.Args[1])
 		os.Exit(2)
 	}
+}
+
+// setWorkerPath gives in-process runs (one, replay) the same PATH as worker processes.
+func setWorkerPath() {
+	vdir := os.Getenv("VERIF_DIR")
+	if vdir == "" {
+		vdir = "/verif"
+	}
+	os.Setenv("PATH", vdir+"/harness/fakebin")
+	os.Unsetenv("TMUX")
 }
 
 func workerMain(id string) {
@@ -669,6 +680,7 @@ func replayMain(path string) int {
 	}
 	runtime.GOMAXPROCS(1)
 	os.Setenv("VERIF_DEBUG", "1")
+	setWorkerPath()
 	if tmp, err := os.MkdirTemp("/dev/shm", "vrf-replay-"); err == nil {
 		os.Setenv("TMPDIR", tmp)
 		defer os.RemoveAll(tmp)
